@@ -141,7 +141,7 @@ func (a *APIClient) Versions(ctx context.Context, pk PackageKey) ([]Version, err
 		vers[i] = makeVersion(VersionKey{
 			PackageKey:  pk,
 			VersionType: Concrete,
-			Version:     v.VersionKey.Version,
+			Version:     v.GetVersionKey().GetVersion(),
 		}, v, "")
 	}
 	return vers, nil
